@@ -38,6 +38,7 @@ ASSUMPTIONS = ['what a child process sees is observed with probe programs (sh+en
 TRUSTED_EXTRA = ['harness/c11.py: history generator, rendering to exactly syntax, probe programs, canonicaliser']
 
 PROP = 'C11'
+EXTRA_PROPS = ['C11C01']  # composition with C01: the model's execution order is the phased executor's (Proofs/SettingsExec.v)
 PHASES = ['setup', 'before_assert', 'assert', 'cleanup']
 PHASE_HEADER = {'setup': '[setup]', 'before_assert': '[before-assert]', 'assert': '[assert]', 'cleanup': '[cleanup]'}
 PHASE_TAG = {'setup': 's', 'before_assert': 'b', 'assert': 'a', 'cleanup': 'c'}
